@@ -211,6 +211,9 @@ fn lattice_case(i: u64, p: &Params, rep: &mut Report) {
     let mut r = p.rng(i);
     let a = gen_datatype(&mut r, 2);
     let b = related(&mut r, &a);
+    if std::env::var_os("QV_TRACE").is_some() {
+        eprintln!("A = {}\nB = {}", a, b);
+    }
     let pair = format!("{}x{}", variant_name(&a), variant_name(&b));
     rep.count(&format!("pair:{}", pair));
     let judged = compatible(&a, &b);
@@ -672,6 +675,14 @@ pub fn run(p: &Params) -> Report {
         &|i, pi, rep| {
             // a panic is not an unsound answer: counted and reported, judged by C18 where it applies
             rep.count("panics");
+            if pi.budget {
+                // ... but an operation that does not come back is: the depth / work guard of the hooks fired
+                rep.violation(
+                    "C11|non-termination|a lattice operation exceeded the recursion / work budget".to_string(),
+                    format!("case {}: {}", i, pi.message),
+                    json!({"case_index": i, "message": pi.message}),
+                );
+            }
             if rep.notes.len() < 5 {
                 rep.notes.push(format!("panic in case {}: {} at {}", i, pi.message, pi.location));
             }
